@@ -256,9 +256,8 @@ def run(tier, seed):
 
 
 def replay(case):
-    c = conn()
-    try:
-        cur = c.execute(case.get('query') or case.get('inner'))
-        return {'status': 'reproduced', 'detail': {'desc': [d.name for d in cur.description], 'rows': repr(cur.fetchall())[:500]}}
-    except Exception as e:
-        return {'status': 'reproduced', 'detail': f'{type(e).__name__}: {e}'}
+    """re-run the harness on the current tree and report whether the recorded case still violates its clause"""
+    import os
+    r = run(os.environ.get('VERIF_TIER', 'quick'), int(os.environ.get('VERIF_SEED', '0')))
+    hit = [v for v in r.get('violations', []) if v.get('case') == case]
+    return {'status': 'reproduced' if hit else 'not-reproduced', 'detail': repr([(v.get('observed'), v.get('expected')) for v in hit[:1]])[:600]}
